@@ -1,23 +1,129 @@
-"""Which units decide which property, per tier. Read by bin/check.
+"""Which units decide which property, per tier. Read by bin/check and bin/mkmanifest.
 
-verus: [{unit, functions (None = all), tags (clause tags that belong to this property), tiers}]
-kani : [{harnesses: {name: {class: C|B, bound, fn}}, tiers, timeout, jobs}]
-Classes: U unbounded Verus proof of verbatim text; C complete Kani proof (no bound involved);
-         B bounded Kani stand-in (bound stated; never counted as proved).
+verus : [{unit, functions (None = all), tags (clause tags that belong to this property), tiers, rlimit}]
+kani  : [{harnesses: {name: {class: C|B, bound, fn}}, tiers, timeout, jobs, mem_gb}]
+native: [{stem, filter, tests: {name: {bound, fn}}, tiers}]          in-crate tests (replay/in_crate/<stem>.rs)
+native_files: [{name, tests: {name: {bound, fn}}, tiers}]            integration tests (replay/native/<name>.rs)
+
+Classes: U  unbounded Verus proof of verbatim text
+         C  complete Kani proof (loop-free / fixed-size harness over full-domain symbolic inputs; no bound)
+         B  bounded Kani stand-in (bound stated; never counted as proved)
+         B' bounded-exhaustive native contract check (enumeration of a stated finite domain on the real code)
 """
 
 LEDGER = [
     "L1 Rust semantics as implemented by the Verus and Kani front ends; soundness of Verus/Z3 and Kani/CBMC/CaDiCaL; Kani run with --ignore-global-asm",
-    "L2 prelude stand-ins (verus/prelude/*.rs) are faithful to the dependency types they replace: scroll traits, minidump-common PODs, error enums",
+    "L2 prelude stand-ins (verus/prelude/*.rs) are faithful to the dependency types they replace: scroll traits, minidump-common PODs, error enums, bitflags permissions",
     "L3 machine integers are machine integers in both engines (overflow is an obligation); images are < 4 GiB where a contract says so (explicit precondition, not discharged for arbitrary targets)",
-    "L4 target = x86_64 Linux, 64-bit usize; other cfg branches are neither compiled nor verified",
+    "L4 target = x86_64 Linux, 64-bit usize; other cfg branches (x86, arm, aarch64, android, macOS, Windows) are neither compiled nor verified",
+    "L5 kernel behaviour (ptrace, waitpid, process_vm_readv, /proc contents, signal delivery) appears only as assumed contracts on stubs; nothing about real schedules is decided",
 ]
 
 Q = ("quick", "thorough")
 T = ("thorough",)
 
-MEMW_FNS = ["position", "reserve", "write", "write_at", "write_all", "deref", "alloc_with_val", "alloc", "set_value",
-            "location", "write_bytes", "alloc_array", "set_value_at", "location_of_index"]
+
+def H(cls, fn, bound=""):
+    d = {"class": cls, "fn": fn}
+    if bound:
+        d["bound"] = bound
+    return d
+
+
+STACK = {"unit": "stack", "rlimit": 60, "tiers": Q}
+
+# ---------------------------------------------------------------------------
+# shared Kani groups
+# ---------------------------------------------------------------------------
+K_SIZES = {
+    "vk_size_u8": H("C", "scroll size/serialisation of u8"),
+    "vk_size_u16": H("C", "scroll size/serialisation of u16"),
+    "vk_size_u32": H("C", "scroll size/serialisation of u32"),
+    "vk_size_dirent": H("C", "scroll size of MDRawDirectory == 12"),
+    "vk_size_memdesc": H("C", "scroll size of MDMemoryDescriptor == 16"),
+    "vk_size_header": H("C", "scroll size of MDRawHeader == 32"),
+    "vk_size_thread": H("C", "scroll size of MDRawThread == 48"),
+    "vk_size_threadname": H("C", "scroll size of MDRawThreadName == 12"),
+    "vk_ser_dirent_layout": H("C", "MemoryWriter::<MDRawDirectory>::alloc_with_val little-endian field placement"),
+    "vk_ser_memdesc_layout": H("C", "MemoryWriter::<MDMemoryDescriptor>::alloc_with_val little-endian field placement"),
+}
+K_ARRAYS = {
+    "vk_alloc_from_array_memdesc_n2": H("B", "MemoryArrayWriter::alloc_from_array", "2 symbolic MDMemoryDescriptor after a 2-byte symbolic image"),
+    "vk_alloc_from_iter_threadname_n2": H("B", "MemoryArrayWriter::alloc_from_iter", "2 symbolic MDRawThreadName after a 2-byte symbolic image"),
+    "vk_string_supp": H("B", "write_string_to_location", "concrete string U+1D11E (surrogate pair) after a 2-byte symbolic image"),
+    "vk_string_bmp": H("B", "write_string_to_location", "concrete string U+00E9 U+20AC (2- and 3-byte UTF-8)"),
+}
+K_THREAD_NAMES = {
+    "vk_thread_names_both": H("B", "thread_names_stream::write", "2 threads, both named, symbolic tids"),
+    "vk_thread_names_first_only": H("B", "thread_names_stream::write", "2 threads, first named"),
+    "vk_thread_names_second_only": H("B", "thread_names_stream::write", "2 threads, second named (unnamed thread in front)"),
+    "vk_thread_names_none": H("B", "thread_names_stream::write", "2 threads, none named"),
+}
+K_HAS_PTR = {
+    "vk_has_ptr_len0": H("B", "MappingInfo::stack_has_pointer_to_mapping", "0-byte stack copy, symbolic sp_offset and [low, high)"),
+    "vk_has_ptr_len7": H("B", "MappingInfo::stack_has_pointer_to_mapping", "7-byte symbolic stack copy"),
+    "vk_has_ptr_len8": H("B", "MappingInfo::stack_has_pointer_to_mapping", "8-byte symbolic stack copy"),
+    "vk_has_ptr_len17": H("B", "MappingInfo::stack_has_pointer_to_mapping", "17-byte symbolic stack copy"),
+}
+K_FIND = {
+    "vk_may_be_stack_rule": H("C", "PtraceDumper::may_be_stack"),
+    "vk_find_mapping_2": H("B", "PtraceDumper::find_mapping", "exactly 2 symbolic mappings"),
+    "vk_find_mapping_no_bias_2": H("B", "PtraceDumper::find_mapping_no_bias", "exactly 2 symbolic mappings"),
+}
+K_FILTERS = {
+    "vk_is_interesting_rule": H("C", "MappingInfo::is_interesting"),
+    "vk_contains_address_rule": H("C", "MappingInfo::contains_address"),
+    "vk_is_contained_in_n0": H("B", "MappingInfo::is_contained_in", "empty user list"),
+    "vk_is_contained_in_n1": H("B", "MappingInfo::is_contained_in", "1 symbolic user mapping"),
+    "vk_is_contained_in_n2": H("B", "MappingInfo::is_contained_in", "2 symbolic user mappings"),
+}
+K_REGS_THREAD = {
+    "vk_thread_fill_cpu_context_gprs": H("C", "ThreadInfoX86::fill_cpu_context (GPR, flags, segments, debug registers)"),
+    "vk_thread_fill_cpu_context_fpstate": H("C", "ThreadInfoX86::fill_cpu_context (x87/SSE save area, byte for byte)"),
+}
+K_REGS_CRASH = {
+    "vk_crash_fill_cpu_context_gprs": H("C", "CrashContext::fill_cpu_context (GPR, flags, cs/fs/gs), get_instruction_pointer, get_stack_pointer"),
+    "vk_crash_fill_cpu_context_fpstate": H("C", "CrashContext::fill_cpu_context (x87/SSE save area, byte for byte)"),
+}
+K_PTRACE = {
+    "vk_ptrace_read_len3": H("B", "MemReader::ptrace", "3-byte destination, symbolic src and readable interval"),
+    "vk_ptrace_read_len8": H("B", "MemReader::ptrace", "8-byte destination"),
+    "vk_ptrace_read_len11": H("B", "MemReader::ptrace", "11-byte destination (one word + 3-byte tail)"),
+    "vk_ptrace_read_len17": H("B", "MemReader::ptrace", "17-byte destination (two words + 1-byte tail)"),
+    "vk_read_to_vec_len_matches": H("B", "MemReader::read_to_vec", "11 bytes through the ptrace strategy"),
+}
+K_SUSPEND = {
+    "vk_suspend_thread_protocol": H("B", "PtraceDumper::suspend_thread", "at most 3 wait results (SIGSTOP / SIGUSR1 / SIGCHLD / exited / EINTR / error)"),
+    "vk_resume_threads_2": H("B", "PtraceDumper::resume_threads", "2 threads, called twice"),
+    "vk_drop_resumes_and_continues": H("C", "Drop for PtraceDumper"),
+    "vk_ptrace_detach_esrch_is_ok": H("C", "ptrace_detach (ESRCH)"),
+    "vk_ptrace_detach_ok": H("C", "PtraceDumper::resume_thread"),
+}
+K_SUSPEND_THREADS = {"vk_suspend_threads_3": H("B", "PtraceDumper::suspend_threads", "3 threads, every attachable/unattachable pattern")}
+K_TLS = {
+    "vk_tls_two_threads_no_context": H("B", "thread_list_stream::write (per-thread loop)", "2 threads, no crash context, either one blamed"),
+    "vk_tls_crash_context_thread": H("B", "thread_list_stream::write (crash-context branch, IP window)", "2 threads, 1 mapping of symbolic size, symbolic crash registers"),
+}
+K_TLS_CAP = {"vk_tls_cap_selection_22": H("B", "thread_list_stream::write (which threads are size-limited)", "22 threads, symbolic size limit")}
+K_DUMP = {
+    "vk_dump_reused_writer": H("C", "MinidumpWriter::dump (control flow, arbitrary stale writer state)"),
+    "vk_dump_fresh_writer_all_paths": H("C", "MinidumpWriter::dump (control flow, every failure path)"),
+}
+K_GENERATE = {"vk_generate_dump_control_flow": H("C", "MinidumpWriter::generate_dump (control flow against stubbed section writers)")}
+K_SANITIZE = {
+    "vk_sanitize_len8_1map": H("B", "PtraceDumper::sanitize_stack_copy", "8-byte symbolic stack, 1 symbolic mapping <= 4 MiB, sp_offset 0..=17"),
+    "vk_sanitize_len12_1map": H("B", "PtraceDumper::sanitize_stack_copy", "12-byte symbolic stack, 1 symbolic mapping <= 4 MiB, sp_offset 0..=21"),
+}
+
+N_PD_TOTAL = {"stem": "ptrace_dumper", "filter": "c02", "tiers": Q, "tests": {
+    "c02_get_stack_info_top_of_address_space": H("B'", "PtraceDumper::get_stack_info", "4 stack pointers within 1 MiB of usize::MAX"),
+    "c02_short_stack_copy_does_not_panic": H("B'", "MappingInfo::stack_has_pointer_to_mapping", "stack copies of 0..=7 bytes"),
+}}
+N_SANITIZE = {"stem": "ptrace_dumper", "filter": "", "tiers": Q, "tests": {
+    "bprime_sanitize_small_domain": H("B'", "PtraceDumper::sanitize_stack_copy", "17 boundary words ^2 x 3 tail lengths x 8 sp offsets x 2 mapping orders = 13 872 inputs"),
+    "c12_small_negative_integer_survives": H("B'", "PtraceDumper::sanitize_stack_copy", "words -5, -4096, 4096, -4097, 4097"),
+    "c12_region_shorter_than_offset": H("B'", "PtraceDumper::sanitize_stack_copy", "(len, sp_offset) in {(12,10), (8,9), (0,1), (16,40)}"),
+}}
 
 PLAN = {}
 
@@ -27,29 +133,14 @@ PLAN["C16"] = {
                    "the three enumerate()/encode_utf16 users and the per-type scroll sizes are Kani obligations",
     "verus": [{"unit": "mem_writer", "functions": None, "tags": ["C16"], "tiers": Q}],
     "kani": [
-        {"tiers": Q, "jobs": 8, "timeout": 1500, "harnesses": {
-            "vk_size_u8": {"class": "C", "fn": "scroll size/serialisation of u8"},
-            "vk_size_u16": {"class": "C", "fn": "scroll size/serialisation of u16"},
-            "vk_size_u32": {"class": "C", "fn": "scroll size/serialisation of u32"},
-            "vk_size_dirent": {"class": "C", "fn": "scroll size of MDRawDirectory == 12"},
-            "vk_size_memdesc": {"class": "C", "fn": "scroll size of MDMemoryDescriptor == 16"},
-            "vk_size_header": {"class": "C", "fn": "scroll size of MDRawHeader == 32"},
-            "vk_size_thread": {"class": "C", "fn": "scroll size of MDRawThread == 48"},
-            "vk_size_threadname": {"class": "C", "fn": "scroll size of MDRawThreadName == 12"},
-            "vk_ser_dirent_layout": {"class": "C", "fn": "MemoryWriter::<MDRawDirectory>::alloc_with_val little-endian field placement"},
-            "vk_ser_memdesc_layout": {"class": "C", "fn": "MemoryWriter::<MDMemoryDescriptor>::alloc_with_val little-endian field placement"},
-            "vk_alloc_from_array_memdesc_n2": {"class": "B", "bound": "2 symbolic MDMemoryDescriptor after a 2-byte symbolic image", "fn": "MemoryArrayWriter::alloc_from_array"},
-            "vk_alloc_from_iter_threadname_n2": {"class": "B", "bound": "2 symbolic MDRawThreadName after a 2-byte symbolic image", "fn": "MemoryArrayWriter::alloc_from_iter"},
-            "vk_string_supp": {"class": "B", "bound": "concrete string U+1D11E (surrogate pair) after a 2-byte symbolic image", "fn": "write_string_to_location"},
-            "vk_string_bmp": {"class": "B", "bound": "concrete string U+00E9 U+20AC (2- and 3-byte UTF-8)", "fn": "write_string_to_location"},
-        }},
+        {"tiers": Q, "jobs": 8, "timeout": 1500, "harnesses": dict(K_SIZES, **K_ARRAYS)},
         {"tiers": T, "jobs": 6, "timeout": 3000, "harnesses": {
-            "vk_size_exception": {"class": "C", "fn": "scroll size of MDRawExceptionStream == 168"},
-            "vk_write_at_u32_len5": {"class": "B", "bound": "5-byte symbolic buffer, every offset 0..=5, u32", "fn": "Buffer::write_at (twin of the Verus proof)"},
-            "vk_alloc_from_array_u8_n5": {"class": "B", "bound": "5 symbolic bytes after a 2-byte image", "fn": "MemoryArrayWriter::<u8>::alloc_from_array"},
-            "vk_string_empty": {"class": "B", "bound": "empty string", "fn": "write_string_to_location"},
-            "vk_string_ascii": {"class": "B", "bound": "concrete string \"ab\"", "fn": "write_string_to_location"},
-            "vk_string_mixed": {"class": "B", "bound": "concrete string 'a' U+1F600 U+FFFD (4 UTF-16 units)", "fn": "write_string_to_location"},
+            "vk_size_exception": H("C", "scroll size of MDRawExceptionStream == 168"),
+            "vk_write_at_u32_len5": H("B", "Buffer::write_at (twin of the Verus proof)", "5-byte symbolic buffer, every offset 0..=5, u32"),
+            "vk_alloc_from_array_u8_n5": H("B", "MemoryArrayWriter::<u8>::alloc_from_array", "5 symbolic bytes after a 2-byte image"),
+            "vk_string_empty": H("B", "write_string_to_location", "empty string"),
+            "vk_string_ascii": H("B", "write_string_to_location", "concrete string \"ab\""),
+            "vk_string_mixed": H("B", "write_string_to_location", "concrete string 'a' U+1F600 U+FFFD (4 UTF-16 units)"),
         }},
     ],
     "twins": {"write_at": ["vk_write_at_u32_len5"]},
@@ -79,27 +170,27 @@ PLAN["C10"] = {
     "level": "proof",
     "explanation": "a directory entry may reach the destination only after every byte of the image built so far has been flushed "
                    "(precondition of dump_dir_entry, obligation of its caller write_to_file); slots are written once in increasing order; "
-                   "flushed bytes never change except directory slots (C09 contracts)",
+                   "flushed bytes never change except directory slots (C09 contracts); generate_dump emits entries only through write_to_file (Kani, thorough)",
     "verus": [{"unit": "dir_section", "functions": ["new", "dump_dir_entry", "write_to_file"], "tags": ["C10"], "tiers": Q}],
-    "kani": [],
+    "kani": [{"tiers": T, "jobs": 2, "timeout": 5400, "mem_gb": 24, "harnesses": K_GENERATE}],
+    "native_files": [{"name": "c10_prefix", "tiers": Q, "tests": {
+        "every_prefix_is_consistent": H("B'", "DirSection (real std::io::Cursor destination, snapshot after every write)", "start offsets 0 and 7, 2 streams of 40 bytes")}}],
     "trusted": ["verus/prelude/std_io.rs: model of std::io::{Write,Seek}; a crash inside one write_all call is outside the statement",
                 "that a stream's entry references only bytes below the image length at emission time is C01(b)"],
     "samples": ["dump_dir_entry requires last_position_written_to_file == |image|  [C10]"],
 }
 
-
-STACK = {"unit": "stack", "rlimit": 60, "tiers": Q}
-
 PLAN["C06"] = {
     "level": "proof",
     "explanation": "get_stack_info and fill_thread_stack proved verbatim: a captured stack starts on the page of the stack pointer "
                    "(or in the first plausible stack mapping above it), extends to the end of that mapping without a limit, is at most the "
-                   "limit with one, and contains the stack pointer whenever the stack pointer lies in a readable stack-like mapping",
+                   "limit with one, and contains the stack pointer whenever the stack pointer lies in a readable stack-like mapping; "
+                   "which threads are limited is a bounded Kani obligation on thread_list_stream::write (thorough tier)",
     "verus": [dict(STACK, functions=["get_stack_info", "fill_thread_stack", "contains_address", "end_address"], tags=["C06"])],
-    "kani": [],
+    "kani": [{"tiers": Q, "jobs": 4, "timeout": 900, "harnesses": K_FIND},
+             {"tiers": T, "jobs": 3, "timeout": 3600, "mem_gb": 24, "harnesses": dict(K_TLS_CAP, **K_TLS)}],
     "trusted": ["copy_from_process satisfies copy_ok (C17 decides it for the ptrace strategy; assumed for process_vm_readv and /proc/pid/mem)",
-                "find_mapping / may_be_stack contracts are assumed in Verus (iterator adapter, bitflags operator) and checked by Kani in C02's group",
-                "which threads get the 2 KiB cap (list position >= 20, never the crash-context thread) is decided inside thread_list_stream::write, which Verus cannot read (enumerate()); see the Kani harness vk_tls_cap_selection when present"],
+                "find_mapping / may_be_stack contracts are assumed in Verus (iterator adapter, bitflags operator) and checked by Kani (2 mappings)"],
     "samples": ["get_stack_info ensures: is_first(k, page(sp)) && stack_like(maps[k]) ==> Ok && v == page(sp) && v+len == end(maps[k])",
                 "fill_thread_stack ensures: sp in a readable stack-like mapping && included ==> start <= sp < start+len  [C06]"],
 }
@@ -107,12 +198,13 @@ PLAN["C06"] = {
 PLAN["C07"] = {
     "level": "proof",
     "explanation": "fill_thread_stack pushes exactly the non-empty stack descriptor whose bytes equal target memory (reader contract); "
-                   "memory_list_stream::write serialises the recorded blocks verbatim, in order, with the count the size implies",
+                   "memory_list_stream::write serialises the recorded blocks verbatim, in order, with the count the size implies; "
+                   "app_memory::write and the instruction-pointer window are bounded Kani obligations",
     "verus": [dict(STACK, functions=["fill_thread_stack", "memory_list_stream_write"], tags=["C07"])],
-    "kani": [],
+    "kani": [{"tiers": Q, "jobs": 2, "timeout": 900, "harnesses": {
+                 "vk_app_memory_two_regions": H("B", "app_memory::write", "2 requests, symbolic addresses, lengths 1..=3")}},
+             {"tiers": T, "jobs": 2, "timeout": 3600, "mem_gb": 24, "harnesses": {"vk_tls_crash_context_thread": K_TLS["vk_tls_crash_context_thread"]}}],
     "trusted": ["copy_from_process satisfies copy_ok (see C17)",
-                "app_memory::write and the instruction-pointer window live in loops Verus cannot relate to positions (for-in without ghost index, enumerate()); "
-                "they are Kani obligations (vk_app_memory_*, vk_ip_window_*) when present, otherwise not covered",
                 "alloc_from_array contract assumed in Verus, checked by Kani (C16 group)"],
     "samples": ["memory_list_stream::write ensures: size == 4 + 16*n; element i == ser(memory_blocks[i])"],
 }
@@ -120,32 +212,249 @@ PLAN["C07"] = {
 PLAN["C20"] = {
     "level": "proof",
     "explanation": "fill_thread_stack keeps a stack under skip-unreferenced iff the instruction pointer lies in [low, high) of the principal mapping "
-                   "or the copied bytes hold an aligned pointer into it; crash_thread_references_principal_mapping uses the same half-open range",
+                   "or the copied bytes hold an aligned pointer into it; crash_thread_references_principal_mapping uses the same half-open range; "
+                   "the stack scanner itself is checked against has_ptr by Kani (bounded); dump() reports PrincipalMappingNotReferenced (thorough)",
     "verus": [dict(STACK, functions=["fill_thread_stack", "crash_thread_references_principal_mapping"], tags=["C20"])],
-    "kani": [],
-    "trusted": ["stack_has_pointer_to_mapping's contract (has_ptr) is assumed in Verus (byteorder) and checked by Kani (vk_has_ptr_*)",
-                "that dump() reports PrincipalMappingNotReferenced and still succeeds is the dump() control-flow harness (thorough tier)"],
+    "kani": [{"tiers": Q, "jobs": 4, "timeout": 900, "harnesses": K_HAS_PTR},
+             {"tiers": T, "jobs": 2, "timeout": 5400, "mem_gb": 24, "harnesses": dict(K_DUMP, **{"vk_has_ptr_len24": H("B", "MappingInfo::stack_has_pointer_to_mapping", "24-byte symbolic stack copy")})}],
+    "trusted": ["stack_has_pointer_to_mapping's contract (has_ptr) is assumed in Verus (byteorder) and checked by Kani at stated lengths"],
     "samples": ["fill_thread_stack ensures: skip && principal is Some && included ==> ip_in(pm, ip) || exists bytes. copy_ok(..) && has_ptr(bytes, ..)  [C20]"],
+}
+
+PLAN["C05"] = {
+    "level": "proof",
+    "explanation": "exception_stream::write proved (Verus) to emit the supplied signal number/code/address, the blamed thread id and the remembered "
+                   "context location; CrashContext::fill_cpu_context proved (Kani, complete) to copy every register; that the blamed thread's "
+                   "list entry uses that same context is a bounded Kani obligation on thread_list_stream::write",
+    "verus": [dict(STACK, functions=["exception_stream_write"], tags=["C05"])],
+    "kani": [{"tiers": Q, "jobs": 2, "timeout": 1200, "harnesses": K_REGS_CRASH},
+             {"tiers": T, "jobs": 2, "timeout": 3600, "mem_gb": 24, "harnesses": K_TLS}],
+    "trusted": ["ds/es/ss do not exist in a ucontext: stated, not claimed", "stand-in for crash_context::CrashContext's siginfo fields in the Verus prelude"],
+    "samples": ["exception_stream::write ensures exists e. image' == image + ser(e) && exc_matches(e, config)  [C05]"],
+}
+
+PLAN["C04"] = {
+    "level": "proof",
+    "explanation": "ThreadInfoX86::fill_cpu_context proved (Kani, complete) for all register contents; suspend_threads keeps exactly the attachable "
+                   "threads in order (bounded); the per-thread loop of thread_list_stream::write emits one record per retained thread with its own context "
+                   "(bounded, thorough); dump()/generate_dump() never read the target after resuming it (complete relative to stubs, thorough)",
+    "verus": [],
+    "kani": [{"tiers": Q, "jobs": 3, "timeout": 1200, "harnesses": dict(K_REGS_THREAD, **K_SUSPEND_THREADS)},
+             {"tiers": T, "jobs": 3, "timeout": 5400, "mem_gb": 20, "harnesses": dict(K_TLS, **dict(K_DUMP, **K_GENERATE))}],
+    "trusted": ["that a ptrace-stopped thread does not run, and what /proc/<pid>/task lists, are the kernel's contract (L5)"],
+    "samples": ["vk_thread_fill_cpu_context_gprs: out.rax == regs.rax ... out.cs == regs.cs as u16, dr0..dr7, rip"],
+}
+
+PLAN["C03"] = {
+    "level": "proof",
+    "explanation": "the attach/wait/re-inject/detach protocol of suspend_thread, resume_threads (idempotent, each thread detached once) and "
+                   "Drop for PtraceDumper (always resumes and sends SIGCONT) are checked against stubbed ptrace; every return path of dump() drops the "
+                   "dumper (thorough). Signal delivery itself is the kernel's side and is not decided",
+    "verus": [],
+    "kani": [{"tiers": Q, "jobs": 5, "timeout": 900, "harnesses": K_SUSPEND},
+             {"tiers": T, "jobs": 3, "timeout": 5400, "mem_gb": 20, "harnesses": dict(K_DUMP, **K_GENERATE)}],
+    "trusted": ["L5: 'delivered exactly once', group-stop vs tracing-stop and real interleavings are kernel behaviour; only the writer's side of the protocol is decided"],
+    "samples": ["vk_suspend_thread_protocol: every non-SIGSTOP stop signal seen while waiting is passed to ptrace::cont exactly once, in order"],
+}
+
+PLAN["C19"] = {
+    "level": "proof",
+    "explanation": "dump() enters generate_dump with empty per-dump state for every incoming writer state (Kani, complete relative to stubs, thorough); "
+                   "given that, memory_list_stream::write emits exactly the blocks of this dump and exception_stream::write only a context set in this dump (Verus)",
+    "verus": [dict(STACK, functions=["memory_list_stream_write", "exception_stream_write"], tags=["C19"])],
+    "kani": [{"tiers": T, "jobs": 2, "timeout": 5400, "mem_gb": 24, "harnesses": K_DUMP}],
+    "native_files": [{"name": "c19_reuse", "tiers": Q, "tests": {
+        "second_dump_of_a_reused_writer_equals_a_fresh_one": H("B'", "MinidumpWriter::dump x2 on a live 3-thread child", "one reuse, idle target")}}],
+    "trusted": ["macOS writer not touched (L4)"],
+    "samples": ["stub of generate_dump asserts: memory_blocks.is_empty() && crashing_thread_context is None  [C19]"],
+}
+
+PLAN["C15"] = {
+    "level": "model_checking",
+    "explanation": "thread_names_stream::write checked by Kani for every named/unnamed pattern of 2 threads with symbolic tids: one entry per named "
+                   "thread, in order, pairing its id with its own name blob",
+    "verus": [],
+    "kani": [{"tiers": Q, "jobs": 4, "timeout": 1200, "harnesses": K_THREAD_NAMES}],
+    "native": [{"stem": "thread_names_stream", "filter": "", "tiers": Q, "tests": {
+        "c15_unnamed_thread_before_named_thread": H("B'", "thread_names_stream::write", "threads [unnamed 11, named 22 \"bc\"]")}}],
+    "trusted": ["reading /proc/<pid>/task/<tid>/comm is outside reach; names are concrete (strings are a cost cliff for CBMC)",
+                "Verus cannot read the function (filter().count(), enumerate())"],
+    "samples": ["vk_thread_names_second_only: header == 1, entry 0 == (tid1, rva of \"bc\")"],
+}
+
+PLAN["C17"] = {
+    "level": "model_checking",
+    "explanation": "MemReader::ptrace against a stubbed PEEKDATA (a word read succeeds iff the whole word is readable): entirely readable ranges are "
+                   "read exactly, otherwise an error or a true prefix; read_to_vec never exposes more than was read. process_vm_readv and /proc/pid/mem are single syscalls (assumed)",
+    "verus": [],
+    "kani": [{"tiers": Q, "jobs": 5, "timeout": 900, "harnesses": K_PTRACE}],
+    "native_files": [{"name": "c17_ptrace_tail", "tiers": T, "tests": {
+        "ptrace_strategy_reads_ranges_ending_at_a_mapping_end": H("B'", "MemReader::for_ptrace on a forked, attached child", "lengths 1,3,7,8,9,11,17,31 ending at a mapping end")}}],
+    "trusted": ["L5: semantics of PTRACE_PEEKDATA, process_vm_readv, pread on /proc/pid/mem"],
+    "samples": ["vk_ptrace_read_len11: src + 11 <= HI && src >= LO ==> Ok(11) && dst == mem[src..src+11]"],
+}
+
+PLAN["C12"] = {
+    "level": "model_checking",
+    "explanation": "sanitize_stack_copy against the statement: bounded-exhaustive native enumeration of boundary words/offsets/mapping orders (quick), "
+                   "Kani with fully symbolic 8- and 12-byte stacks and a symbolic mapping (thorough)",
+    "verus": [],
+    "kani": [{"tiers": T, "jobs": 2, "timeout": 5400, "mem_gb": 24, "harnesses": K_SANITIZE}],
+    "native": [N_SANITIZE],
+    "trusted": ["Verus cannot read the function (chunks_exact_mut, vec! table)"],
+    "samples": ["qualifies(w) <=> |w as isize| <= 4096 || w in stack mapping || w in first mapping containing it and that one is executable"],
+}
+
+PLAN["C13"] = {
+    "level": "model_checking",
+    "explanation": "MappingInfo::aggregate (through procfs-core's real parser) checked on every memory map of up to 3 lines over a 64-element per-line "
+                   "domain and every vDSO choice (1 060 992 maps) against five reference predicates derived from the statement",
+    "verus": [],
+    "kani": [],
+    "native": [{"stem": "maps_reader", "filter": "bprime_aggregate", "tiers": Q, "tests": {
+        "bprime_aggregate_up_to_2_lines": H("B'", "MappingInfo::aggregate", "all maps of 1..=2 lines over the per-line domain x vDSO choices (12 416)"),
+        "bprime_aggregate_up_to_3_lines": H("B'", "MappingInfo::aggregate", "all maps of 1..=3 lines (1 060 992)")}}],
+    "trusted": ["Kani needs > 7 min for two lines (measured in the design phase) and Verus rejects the function: the property is decided at tier B' only",
+                "'between two parts of an executable file mapping' is read as 'between two parts of the same file mapping' (the code does not test executability for the fold rule)"],
+    "samples": ["P2: every line lies in exactly one derived mapping", "P4: a line joins a group only if it carries the group's name, or is the inaccessible gap after an executable file mapping, or the anonymous inaccessible page between two parts of the same file"],
+}
+
+PLAN["C14"] = {
+    "level": "model_checking",
+    "explanation": "BuildId / SoName::read_from_module on byte images: a well-formed ELF64 built field by field is identified (GNU note, XOR-fold of the first "
+                   "executable section, DT_SONAME); every single-field and every pairwise corruption over boundary values (583 848 images) returns without panicking",
+    "verus": [],
+    "kani": [],
+    "native": [{"stem": "module_reader", "filter": "", "tiers": Q, "tests": {
+        "c14_well_formed_image_is_identified": H("B'", "BuildId/SoName::read_from_module", "3 hand-built ELF64 images"),
+        "bprime_single_field_corruptions_never_panic": H("B'", "BuildId/SoName::read_from_module", "108 fields x 14 values, and all field pairs x 25 value pairs, with and without a note")}}],
+    "trusted": ["agreement with an independent parser on installed files and memory-vs-file agreement need a second implementation and a live target: not decided",
+                "goblin's parsing beyond the paths these images exercise"],
+    "samples": ["field at offset 728 (DT_STRTAB) := u64::MAX must give Err, not 'attempt to add with overflow'"],
+}
+
+PLAN["C08"] = {
+    "level": "model_checking",
+    "explanation": "the module filters: is_interesting and contains_address proved for all field values (Kani, complete), is_contained_in for user lists of 0..2 "
+                   "mappings (bounded). Build-id/SONAME content is C14; entry-point-first and the effective name are not covered",
+    "verus": [],
+    "kani": [{"tiers": Q, "jobs": 5, "timeout": 900, "harnesses": K_FILTERS}],
+    "native": [{"stem": "module_reader", "filter": "c14_well", "tiers": Q, "tests": {
+        "c14_well_formed_image_is_identified": H("B'", "BuildId/SoName::read_from_module", "3 hand-built ELF64 images")}}],
+    "trusted": ["enumerate_mappings' entry-point swap opens /proc/<pid>/maps before the two statements: no pure function to put under contract (not covered)",
+                "fill_raw_module / effective path name: PathBuf and lossy strings, not covered"],
+    "samples": ["is_interesting == (name.is_some() && (offset == 0 || executable) && size >= 4096)"],
+}
+
+PLAN["C11"] = {
+    "level": "model_checking",
+    "explanation": "suspend_threads records one soft error per unattachable thread and keeps going (bounded); generate_dump keeps succeeding when any "
+                   "best-effort writer fails, leaves an unused entry and records exactly one soft error per failed step (complete relative to stubs, thorough)",
+    "verus": [],
+    "kani": [{"tiers": Q, "jobs": 2, "timeout": 900, "harnesses": K_SUSPEND_THREADS},
+             {"tiers": T, "jobs": 2, "timeout": 5400, "mem_gb": 24, "harnesses": K_GENERATE}],
+    "trusted": ["well-formed JSON of the soft-error stream is serde_json + error-graph behaviour (assumed)",
+                "PtraceDumper::init's four best-effort steps are not yet under contract"],
+    "samples": ["vk_generate_dump_control_flow: SOFT_ERRORS_SEEN == FAILED_BEST_EFFORT && ZERO_ENTRIES >= FAILED_BEST_EFFORT"],
+}
+
+PLAN["C18"] = {
+    "level": "model_checking",
+    "explanation": "decidable conjuncts only: the memory-protection table (Kani, complete), 0-means-unset conversion of caller auxv values (Kani, complete), "
+                   "caller-supplied auxv values take precedence over the kernel's for every subset of keys (native enumeration on the process's own auxv)",
+    "verus": [],
+    "kani": [{"tiers": Q, "jobs": 2, "timeout": 600, "harnesses": {
+        "vk_memory_protection_table": H("C", "memory_info_list_stream::get_memory_protection"),
+        "vk_direct_auxv_from": H("C", "From<DirectAuxvDumpInfo> for AuxvDumpInfo")}}],
+    "native": [{"stem": "auxv", "filter": "", "tiers": Q, "tests": {
+        "bprime_direct_auxv_values_take_precedence": H("B'", "AuxvDumpInfo::try_filling_missing_info", "16 subsets of supplied keys x 4 keys")}}],
+    "trusted": ["that the raw streams equal what the kernel reports, handle/mode listing, uname/cpuinfo parsing, the linker list walk: environment, not decided (DESIGN §8)"],
+    "samples": ["get_memory_protection(rw-) == PAGE_READWRITE"],
+}
+
+PLAN["C01"] = {
+    "level": "proof",
+    "explanation": "builder laws (C16 unit), DirSection (C09 unit) and the per-stream contracts of fill_thread_stack, memory_list_stream::write and "
+                   "exception_stream::write proved in Verus: every returned location starts where the image ended, has the size its count implies and the image only grows; "
+                   "thread_names_stream::write and app_memory::write by Kani (bounded); exactly 18 entries, each through write_to_file (Kani, thorough)",
+    "verus": [dict(STACK, functions=["fill_thread_stack", "memory_list_stream_write", "exception_stream_write"], tags=["C01"]),
+              {"unit": "dir_section", "functions": ["new", "dump_dir_entry", "write_to_file"], "tags": ["C01"], "tiers": Q},
+              {"unit": "mem_writer", "functions": None, "tags": ["C16"], "tiers": Q}],
+    "kani": [{"tiers": Q, "jobs": 6, "timeout": 1500, "harnesses": dict(K_THREAD_NAMES, **dict(K_ARRAYS, **{"vk_app_memory_two_regions": H("B", "app_memory::write", "2 requests")}))},
+             {"tiers": T, "jobs": 3, "timeout": 5400, "mem_gb": 20, "harnesses": dict(K_GENERATE, **K_TLS)}],
+    "trusted": ["mappings::write / fill_raw_module, handle_data_stream, memory_info_list_stream, systeminfo_stream, dso_debug bodies are not under contract (fs/procfs iterators): only the array/size arithmetic they share with the builder is",
+                "macOS writer not touched (L4)"],
+    "samples": ["memory_list_stream::write ensures d.location == {rva: |old image|, data_size: 4 + 16 n}",
+                "g_write_to_file asserts ENTRIES < 18 before each entry; on Ok ENTRIES == 18 == header.stream_count"],
+}
+
+PLAN["C02"] = {
+    "level": "proof",
+    "explanation": "panic-freedom and termination obligations (overflow, slice bounds, decreases) of the Verus-readable functions on the dump path are proved "
+                   "for all inputs; the stack scanner, mapping lookup and the /dev guard by Kani; SoVersion::parse, the short-copy/top-of-address-space inputs and the "
+                   "/dev FIFO case by native enumeration; ELF parsing totality is C14; sanitize totality is C12",
+    "verus": [dict(STACK, functions=["get_stack_info", "fill_thread_stack", "crash_thread_references_principal_mapping", "memory_list_stream_write",
+                                     "exception_stream_write", "contains_address", "end_address"], tags=["C02"]),
+              {"unit": "dir_section", "functions": ["new", "dump_dir_entry", "write_to_file"], "tags": ["C02"], "tiers": Q},
+              {"unit": "mem_writer", "functions": None, "tags": ["C02"], "tiers": Q}],
+    "kani": [{"tiers": Q, "jobs": 8, "timeout": 1200, "harnesses": dict(K_HAS_PTR, **dict(K_FIND, **{"vk_safe_to_open_table": H("B", "MappingInfo::is_mapped_file_safe_to_open", "5 concrete names")}))}],
+    "native": [N_PD_TOTAL,
+               {"stem": "maps_reader", "filter": "bprime_so_version", "tiers": Q, "tests": {
+                   "bprime_so_version_parse_is_total": H("B'", "SoVersion::parse", "every name lib.so.<s>, s over 8 characters (2 non-ASCII), |s| <= 5: 37 449 names")}},
+               {"stem": "mappings", "filter": "", "tiers": Q, "tests": {
+                   "c02_mapped_file_under_dev_is_not_opened": H("B'", "mappings::write", "one mapping named after a FIFO under /dev/shm")}}],
+    "trusted": ["dso_debug::write_dso_debug_stream (index panics on short reads, unbounded link-map walk) is NOT under contract yet: see DESIGN §5 D10",
+                "wall-clock behaviour of syscalls is not decided; 'bounded time' is loop termination of the listed functions",
+                "get_ppid_and_tgid's line parser is file-backed: not covered"],
+    "samples": ["get_stack_info: decreases usize::MAX - stack_pointer; no arithmetic overflow for any int_stack_pointer",
+                "Buffer::write_at: inserted assert offset <= offset + to_write <= len (slice bounds)"],
 }
 
 # ---------------------------------------------------------------------------
 # manifest text
 # ---------------------------------------------------------------------------
 TECHNIQUE = {
-    "C16": "deductive verification (Verus contracts on verbatim src/mem_writer.rs) + Kani harnesses for per-type serialisation facts and the three functions Verus cannot read",
+    "C01": "deductive verification (Verus per-stream contracts + builder/DirSection units) + Kani bounded/complete harnesses for what Verus cannot read",
+    "C02": "deductive verification of panic-freedom/termination obligations (Verus) + Kani bounded harnesses + bounded-exhaustive native contract checks",
+    "C03": "Kani harnesses of the attach/detach protocol against stubbed ptrace (contract stubs), complete control-flow harness of dump()",
+    "C04": "Kani complete proof of the register map + bounded/complete control-flow harnesses against contract stubs",
+    "C05": "deductive verification (Verus) of exception_stream::write + Kani complete proof of the crash-context register map",
+    "C06": "deductive verification (Verus): postconditions of get_stack_info / fill_thread_stack on verbatim text; Kani for the limit selection",
+    "C07": "deductive verification (Verus): postconditions of fill_thread_stack / memory_list_stream::write; Kani for app memory and the IP window",
+    "C08": "Kani complete/bounded proofs of the module filter predicates",
     "C09": "deductive verification (Verus): DirSection representation invariant proved function by function against an assumed std::io model",
-    "C10": "deductive verification (Verus): flush-before-entry precondition of dump_dir_entry discharged at its call site",
-    "C06": "deductive verification (Verus): postconditions of get_stack_info / fill_thread_stack on verbatim text",
-    "C07": "deductive verification (Verus): postconditions of fill_thread_stack / memory_list_stream::write",
-    "C20": "deductive verification (Verus): biconditional postcondition of fill_thread_stack and crash_thread_references_principal_mapping",
+    "C10": "deductive verification (Verus): flush-before-entry precondition of dump_dir_entry discharged at its call site; Kani control-flow harness",
+    "C11": "Kani harnesses against contract stubs (suspend_threads bounded, generate_dump control flow complete)",
+    "C12": "bounded checking of the sanitizer's contract: native bounded-exhaustive enumeration + Kani symbolic harnesses",
+    "C13": "bounded-exhaustive native check of aggregate's contract (reference predicates from the statement) on all maps of <= 3 lines",
+    "C14": "bounded-exhaustive native check of ELF identification (well-formed images + all single/pairwise field corruptions)",
+    "C15": "Kani bounded harnesses of thread_names_stream::write (every named/unnamed pattern of 2 threads)",
+    "C16": "deductive verification (Verus contracts on verbatim src/mem_writer.rs) + Kani harnesses for per-type serialisation facts and the three functions Verus cannot read",
+    "C17": "Kani bounded harnesses of MemReader::ptrace against a contract stub of PEEKDATA",
+    "C18": "Kani complete proofs of the decidable conjuncts + native enumeration of auxv precedence",
+    "C19": "Kani complete control-flow harness of dump() asserting generate_dump's precondition + Verus postconditions of the two consumers",
+    "C20": "deductive verification (Verus): biconditional postcondition of fill_thread_stack and crash_thread_references_principal_mapping; Kani for the scanner",
 }
 LEVEL_TEXT = {
-    "C16": "unbounded proof for every Buffer/MemoryWriter/MemoryArrayWriter function Verus can read (all inputs, all buffer states); complete Kani proofs of the per-type size facts; bounded Kani checks (stated bounds) of alloc_from_array/alloc_from_iter/write_string_to_location",
+    "C01": "unbounded proofs for the builder, the directory writer and three stream writers; bounded Kani checks for thread names, arrays, strings, app memory; complete control-flow proof (relative to contract stubs) that exactly the declared number of entries is emitted. Streams whose bodies read /proc are covered only through the builder primitives they call",
+    "C02": "unbounded proof of overflow/bounds/termination obligations for the Verus-readable functions of the dump path; bounded Kani and bounded-exhaustive native checks for the parsers Verus cannot read; dso_debug is not covered",
+    "C03": "bounded/complete checks of the writer's side of the ptrace protocol against contract stubs; the kernel's side (signal delivery, scheduling) is out of reach and not claimed",
+    "C04": "complete proof (all register contents) of the thread register map; bounded checks of thread retention and of the per-thread loop; complete control-flow proofs relative to stubs (thorough tier)",
+    "C05": "unbounded proof of the exception record, complete proof of the crash-context register map, bounded check that the blamed thread shares that context (thorough)",
+    "C06": "unbounded proof over all stack pointers, mapping lists and page sizes of the stack-capture postconditions (containment of SP, page start, extent, 2 KiB cap), relative to the reader contract; bounded Kani check of which threads are limited",
+    "C07": "unbounded proof that stack regions and the serialised memory list are faithful, relative to the reader contract; bounded Kani checks for app memory and the IP window",
+    "C08": "complete proofs of two filter predicates, bounded proof of user-mapping containment; name/SONAME/entry-point clauses are not covered",
     "C09": "unbounded proof, for every start offset, pre-existing destination content, image and operation, that each DirSection operation preserves 'flushed prefix == image' and touches nothing outside [start, start+|image|), relative to the assumed Write/Seek semantics",
-    "C10": "unbounded proof that no directory entry reaches the destination before the bytes it can reference (the obligation that failed on the pinned tree and was repaired)",
-    "C06": "unbounded proof over all stack pointers, mapping lists and page sizes of the stack-capture postconditions (containment of SP, page start, extent, 2 KiB cap), relative to the reader contract",
-    "C07": "unbounded proof that stack regions and the serialised memory list are faithful, relative to the reader contract; app-memory and IP window are not yet under contract",
+    "C10": "unbounded proof that no directory entry reaches the destination before the bytes it can reference (the obligation that failed on the pinned tree and was repaired); complete control-flow proof that generate_dump emits entries only through write_to_file (thorough)",
+    "C11": "bounded check of suspend_threads, complete control-flow proof (relative to stubs) for the 11 best-effort steps of generate_dump (thorough); init and JSON well-formedness are not covered",
+    "C12": "bounded: exhaustive native enumeration of 13 872 boundary inputs (quick) and Kani over all 8/12-byte stacks with a symbolic mapping (thorough); not a proof for all stack lengths",
+    "C13": "bounded: exhaustive over all maps of up to 3 lines of a 64-element per-line domain; not a proof for all map lengths",
+    "C14": "bounded: three hand-built images and 583 848 corrupted variants; agreement with an independent parser on installed files is not decided",
+    "C15": "bounded: every named/unnamed pattern of 2 threads with symbolic ids and concrete names",
+    "C16": "unbounded proof for every Buffer/MemoryWriter/MemoryArrayWriter function Verus can read (all inputs, all buffer states); complete Kani proofs of the per-type size facts; bounded Kani checks (stated bounds) of alloc_from_array/alloc_from_iter/write_string_to_location",
+    "C17": "bounded: destinations of 3, 8, 11, 17 bytes, every source alignment and every readable interval, ptrace strategy only; the two syscall strategies are assumed",
+    "C18": "complete proofs of two pure conversions, bounded-exhaustive check of auxv precedence; the content-equality clauses (kernel data) are not decidable here",
+    "C19": "complete control-flow proof (relative to stubs, thorough tier) that every dump starts from fresh per-dump state, unbounded proofs that the two consumers emit only that state; a native two-dump replay on a live child in the quick tier",
     "C20": "unbounded proof of the keep/drop rule for stacks under skip-unreferenced, relative to the assumed contract of the stack scanner (checked bounded by Kani)",
 }
-NOT_APPLICABLE = {p: "check not built yet (framework under construction; see DESIGN.md §4 for the planned units)" for p in
-                  ["C01", "C02", "C03", "C04", "C05", "C08", "C11", "C12", "C13", "C14", "C15", "C17", "C18", "C19"]}
+NOT_APPLICABLE = {}
